@@ -731,6 +731,20 @@ def depth(node):
     return 1 + (max(depth(c) for c in cs_) if cs_ else 0)
 
 
+def unbounded_depth(node):
+    """Maximum nesting depth of quantifiers that may repeat more than once (catastrophic backtracking grows with it)."""
+    d = 0
+    if node[0] == 'q':
+        kind, sp, n, m = node[1], node[2], node[4], node[5]
+        try:
+            lo, hi = canon_bounds('exactly' if sp in ('mul', 'rmul') else kind, n, m)
+            d = 1 if (hi is None or (isinstance(hi, int) and hi > 1)) else 0
+        except Exception:  # noqa: BLE001
+            d = 1
+    cs_ = children(node)
+    return d + (max(unbounded_depth(c) for c in cs_) if cs_ else 0)
+
+
 def kinds(node):
     return {n[0] if n[0] not in ('q', 'look', 'anchor') else f'{n[0]}:{n[1]}' for n in walk(node)}
 
